@@ -82,20 +82,31 @@ def metric(use_latlon):
     return de
 
 
-def same_ranked(got, exp, key_of, tol=1e-9):
-    """both lists sorted by distance; equal as sequences of tie groups (order inside a distance tie is unspecified)"""
-    if len(got) != len(exp):
+def same_ranked(got, exp_full, key_of, max_elmt=None, tol=1e-9):
+    """got must be: sorted by distance; a subset of the full expectation with the right distances; of length
+    min(max_elmt, len(full)); and contain every expected element strictly closer than its last element
+    (which element of a distance tie survives the truncation is unspecified)."""
+    n = len(exp_full) if max_elmt is None else min(max_elmt, len(exp_full))
+    if len(got) != n:
         return False
-    i = 0
-    while i < len(exp):
-        j = i
-        while j + 1 < len(exp) and abs(exp[j + 1][0] - exp[i][0]) <= tol * (1 + abs(exp[i][0])):
-            j += 1
-        if sorted(map(key_of, got[i:j + 1]), key=repr) != sorted(map(key_of, exp[i:j + 1]), key=repr):
+    if any(got[i][0] > got[i + 1][0] + tol * (1 + abs(got[i][0])) for i in range(len(got) - 1)):
+        return False
+    exp_by_key = {}
+    for t in exp_full:
+        exp_by_key.setdefault(repr(key_of(t)), []).append(t[0])
+    seen = set()
+    for t in got:
+        k = repr(key_of(t))
+        if k not in exp_by_key or k in seen and len(exp_by_key[k]) < 2:
             return False
-        if any(abs(a[0] - b[0]) > tol * (1 + abs(b[0])) for a, b in zip(got[i:j + 1], exp[i:j + 1])):
+        if not any(abs(t[0] - d) <= tol * (1 + abs(d)) for d in exp_by_key[k]):
             return False
-        i = j + 1
+        seen.add(k)
+    if got:
+        last = got[-1][0]
+        for t in exp_full:
+            if t[0] < last - tol * (1 + abs(last)) and repr(key_of(t)) not in seen:
+                return False
     return True
 
 
@@ -146,25 +157,32 @@ def case_C11(seed):
                     got_e = list(mp.edges_closeto(loc, max_dist=r, max_elmt=max_elmt))
                 en = exp_n[:max_elmt] if max_elmt is not None else exp_n
                 ee = exp_e[:max_elmt] if max_elmt is not None else exp_e
-                if not same_ranked([(t[0], t[1], tuple(t[2])) for t in got_n], [(t[0], t[1], tuple(t[2])) for t in en], lambda t: (t[1], t[2])):
+                if not same_ranked([(t[0], t[1], tuple(t[2])) for t in got_n], [(t[0], t[1], tuple(t[2])) for t in exp_n], lambda t: t[1], max_elmt) or \
+                        any(tuple(map(float, t[2])) != tuple(map(float, g[t[1]][0])) for t in got_n):
                     viol.append((f'C11:{nm}.nodes_closeto-differs-from-exhaustive-scan',
                                  f"{nm}.nodes_closeto({loc}, {r}, {max_elmt}) = {[(round(t[0], 6), t[1]) for t in got_n]}, expected {[(round(t[0], 6), t[1]) for t in en]}",
                                  {'graph': {str(k): [list(v[0]), v[1]] for k, v in g.items()}, 'scale': scale, 'loc': list(loc), 'radius': r, 'max_elmt': max_elmt}))
-                ge = [(t[0], t[1], t[3], tuple(t[5][:2]), t[6]) for t in got_e]
-                xe = [(t[0], t[1], t[3], tuple(t[5][:2]), t[6]) for t in ee]
-                if not same_ranked(ge, xe, lambda t: (t[1], t[2])):
+                # self-loop edges (a node listed as its own neighbour) are left unspecified: the in-memory map skips them,
+                # the SQLite map lists them; they are ignored on both sides
+                ge = [(t[0], t[1], t[3], tuple(t[5][:2]), t[6]) for t in got_e if t[1] != t[3]]
+                if max_elmt is not None and len(ge) < len(got_e):
+                    continue
+                xe_full = [(t[0], t[1], t[3], tuple(t[5][:2]), t[6]) for t in exp_e]
+                xe = xe_full[:max_elmt] if max_elmt is not None else xe_full
+                if not same_ranked(ge, xe_full, lambda t: (t[1], t[2]), max_elmt):
                     key = f'C11:{nm}.edges_closeto-differs-from-exhaustive-scan'
-                    if nm == 'InMemMap' and max_elmt is None:
-                        gk = {(t[1], t[2]) for t in ge}
-                        missing = [t for t in xe if (t[1], t[2]) not in gk]
-                        box = lib.box_around_point(tuple(loc[:2]), r) if r < math.inf else None
-                        if missing and len(ge) + len(missing) == len(xe) and box and all(
-                                not (box[0] <= g[t[1]][0][0] <= box[2] and box[1] <= g[t[1]][0][1] <= box[3]) for t in missing):
+                    if nm == 'InMemMap':
+                        # known finding F2: only edges whose START NODE lies in the box are considered
+                        box = lib.box_around_point(tuple(loc[:2]), r)
+                        f2 = [t for t in xe_full if box[0] <= g[t[1]][0][0] <= box[2] and box[1] <= g[t[1]][0][1] <= box[3]]
+                        if len(f2) < len(xe_full) and same_ranked(ge, f2, lambda t: (t[1], t[2]), max_elmt):
                             key = 'C11:inmem-edges-closeto-missing-long-edge'
                     viol.append((key, f"{nm}.edges_closeto({loc}, {r}, {max_elmt}) = {[(round(t[0], 6), t[1], t[2]) for t in ge]}, expected {[(round(t[0], 6), t[1], t[2]) for t in xe]}",
                                  {'graph': {str(k): [list(v[0]), v[1]] for k, v in g.items()}, 'scale': scale, 'loc': list(loc), 'radius': r, 'max_elmt': max_elmt}))
                 else:
-                    for a_, b_ in zip(sorted(ge, key=lambda t: (t[1], t[2])), sorted(xe, key=lambda t: (t[1], t[2]))):
+                    xk = {(t[1], t[2]): t for t in xe_full}
+                    for a_ in ge:
+                        b_ = xk[(a_[1], a_[2])]
                         if abs(a_[4] - b_[4]) > 1e-9 or math.hypot(a_[3][0] - b_[3][0], a_[3][1] - b_[3][1]) > 1e-9 * (1 + abs(b_[3][0])):
                             viol.append((f'C11:{nm}.edges_closeto-wrong-projection', f"edge {a_[1], a_[2]}: got pi/ti {a_[3]}/{a_[4]}, expected {b_[3]}/{b_[4]}",
                                          {'scale': scale, 'loc': list(loc), 'radius': r}))
@@ -259,6 +277,7 @@ def case_C12(seed):
             if tr:
                 cfg = U.gen_cfg(rnd, only_edges=True, cutoffs=False)
                 cfg['max_dist'] = rnd.choice([None, 2.0])
+                cfg['max_dist_init'] = 1e9 if cfg['max_dist'] else None      # unbounded initial radius (C12 statement)
                 res = []
                 for mp in (im, sm):
                     with contextlib.redirect_stdout(io.StringIO()):
